@@ -173,18 +173,23 @@ def run(F, R, tier):
 
     # ---------------- C06-d ------------------------------------------------
     vj = F.body("graph::validate_jsr_specifier")
-    mm = [n for n in vj["_nodes"] if n["k"] == "Match"]
-    if R.ob("C06-d", "validate_jsr_specifier matches on the requirement kind", len(mm) == 1, "shape changed", vj["file"]):
-        ca = False
-        for arm in mm[0]["arms"]:
-            v, c = pat_variants(arm["pat"])
-            ca = ca or c
-            vals = []
-            _tail_values(F, arm["body"], vals)
-            if any(x.endswith("RangeSetOrTag::Tag") for x in v):
-                ok = all(ctor_of(x) == "std::result::Result::Err" for x in vals) and any(ctor_of(y) == "graph::JsrPackageFormatError::VersionTagNotSupported" for x in vals for y in walk(x))
-                R.ob("C06-d", "version tags are rejected", ok, "Tag arm yields %s" % [expr_text(x)[:40] for x in vals], where(arm["body"]))
-        R.ob("C06-d", "no catch-all over requirement kinds", not ca, "catch-all arm", where(mm[0]))
+    # every value the function can return: under a `Tag(..)` match it is the
+    # VersionTagNotSupported error; an Ok is only returned where Tag is excluded
+    vals = return_values(F, vj)
+    n_tag = 0
+    for v in vals:
+        if v.get("k") == "TryExit":
+            continue
+        g = guards_at(F, v)
+        tag_pos = any(x.kind == "pat" and x.pol and "RangeSetOrTag::Tag" in pat_text(x.pat) for x in g)
+        tag_neg = any(x.kind == "pat" and ((not x.pol and "RangeSetOrTag::Tag" in pat_text(x.pat)) or (x.pol and "RangeSetOrTag::RangeSet" in pat_text(x.pat))) for x in g)
+        if tag_pos:
+            n_tag += 1
+            ok = ctor_of(v) == "std::result::Result::Err" and any(ctor_of(y) == "graph::JsrPackageFormatError::VersionTagNotSupported" for y in walk(v))
+            R.ob("C06-d", "version tags are rejected", ok, "under a Tag requirement validate_jsr_specifier yields %s" % expr_text(v)[:40], where(v))
+        elif ctor_of(v) == "std::result::Result::Ok":
+            R.ob("C06-d", "a jsr specifier is accepted only where a version tag is excluded", tag_neg, "validate_jsr_specifier returns Ok without having excluded `RangeSetOrTag::Tag`", where(v))
+    R.ob("C06-d", "validate_jsr_specifier matches on the requirement kind", n_tag >= 1, "no return value under a `RangeSetOrTag::Tag` match", vj["file"])
     lk = F.body("graph::Builder::parse_load_specifier_kind")
     R.ob("C06-d", "every jsr: specifier is validated before it is loaded", any(callee_matches(n, ["graph::validate_jsr_specifier"]) for n in lk["_nodes"]), "parse_load_specifier_kind no longer calls validate_jsr_specifier", lk["file"])
 
@@ -226,12 +231,12 @@ def run(F, R, tier):
              "had_higher_date_version %s: a not-found error would blame the newest-dependency date although no version matched the requirement at all (or would not mention it when one did)" % why, where(nn[0]))
     # ---------------- C06-f ------------------------------------------------
     fl_ = F.body("graph::ModuleGraph::fill_from_lockfile")
-    mm = [n for n in fl_["_nodes"] if n["k"] == "Match" and "kind" in expr_text(n["scrut"])]
-    if R.ob("C06-f", "lockfile package loop found", len(mm) == 1, "shape changed", fl_["file"]):
-        for arm in mm[0]["arms"]:
-            if "PackageKind::Jsr" in pat_text(arm["pat"]):
-                adds = [n for n in walk(arm["body"]) if callee_matches(n, ["PackageSpecifiers::add_nv"])]
-                R.ob("C06-f", "lockfile jsr entries seed the selections", len(adds) == 1, "Jsr arm no longer calls add_nv", where(arm["body"]))
+    adds = [n for n in fl_["_nodes"] if callee_matches(n, ["PackageSpecifiers::add_nv"])]
+    if R.ob("C06-f", "lockfile package loop found", len(adds) >= 1, "fill_from_lockfile no longer calls add_nv", fl_["file"]):
+        for n in adds:
+            g = guards_at(F, n)
+            R.ob("C06-f", "lockfile jsr entries seed the selections", any(x.kind == "pat" and x.pol and "PackageKind::Jsr" in pat_text(x.pat) for x in g) or any(x.kind == "cond" and x.pol and "PackageKind::Jsr" in expr_text(x.node) for x in g),
+                 "add_nv is not under a `PackageKind::Jsr` test", where(n))
     gp = F.body("packages::NewestDependencyDateOptions::get_for_package")
     vals = return_values(F, gp)
     nones = [v for v in vals if ctor_of(v) == "std::option::Option::None"]
